@@ -136,8 +136,7 @@ func cmdCheck(id, tier string) int {
 	if err != nil {
 		return violationNoInput(id, "load#packages", "packages do not load: "+err.Error(), evPath, tier, seed, t0)
 	}
-	e.db = db
-	e.usedLemmas = map[string]bool{}
+	e.setDB(db)
 	loadS := time.Since(t0).Seconds()
 
 	timeout := *flagTimeout
@@ -226,8 +225,30 @@ func cmdCheck(id, tier string) int {
 		if min, ok := cfg.MinPerFn[r.Key]; ok && countReal(r.Obligs) < min {
 			fails = append(fails, failure{name: r.Key + "#vacuity", detail: fmt.Sprintf("only %d obligations generated, committed minimum is %d", countReal(r.Obligs), min)})
 		}
+		// obligations whose names differ only in the /r<k> suffix are parts of one
+		// obligation (one postcondition clause checked at each return point)
+		type group struct {
+			name  string
+			parts []*Obligation
+		}
+		var groups []*group
+		gidx := map[string]*group{}
 		for _, o := range r.Obligs {
 			solverS += o.Time
+			base := o.Name
+			if i := strings.LastIndex(base, "/r"); i >= 0 {
+				base = base[:i]
+			}
+			g := gidx[base]
+			if g == nil {
+				g = &group{name: base}
+				gidx[base] = g
+				groups = append(groups, g)
+			}
+			g.parts = append(g.parts, o)
+		}
+		for _, g := range groups {
+			o := g.parts[0]
 			if o.Cover {
 				nCover++
 				if o.Result == "sat" {
@@ -238,21 +259,27 @@ func cmdCheck(id, tier string) int {
 				}
 				continue
 			}
-			if o.ok() {
+			var bad *Obligation
+			for _, p := range g.parts {
+				if !p.ok() && (bad == nil || p.Result == "sat" && bad.Result != "sat") {
+					bad = p
+				}
+			}
+			if bad == nil {
 				nOb++
 				nDis++
 				bySolver[o.Solver]++
 				if len(samples) < 6 && (strings.Contains(o.Kind, "post") || strings.Contains(o.Kind, "preserve") || strings.Contains(o.Kind, "ensures")) {
-					samples = append(samples, map[string]interface{}{"obligation": o.Name, "what": o.Note, "result": o.Result, "solver": o.Solver, "solver_s": round3(o.Time), "mode": o.Mode.String(), "smt_bytes": len(o.script(false))})
+					samples = append(samples, map[string]interface{}{"obligation": g.name, "parts": len(g.parts), "what": o.Note, "result": o.Result, "solver": o.Solver, "solver_s": round3(o.Time), "mode": o.Mode.String(), "smt_bytes": len(o.script(false))})
 				}
 				continue
 			}
-			if k := isKnown(o.Name); k != nil {
-				knownHit = append(knownHit, fmt.Sprintf("KNOWN-FINDING: property=%s %s [%s]", id, k.What, o.Name))
+			if k := isKnown(g.name); k != nil {
+				knownHit = append(knownHit, fmt.Sprintf("KNOWN-FINDING: property=%s %s [%s]", id, k.What, g.name))
 				continue
 			}
 			nOb++
-			fails = append(fails, failure{name: o.Name, detail: o.Note + " -- solver result: " + o.Result, ob: o})
+			fails = append(fails, failure{name: g.name, detail: bad.Note + " -- solver result: " + bad.Result + " (part " + bad.Name + ")", ob: bad})
 		}
 	}
 	for _, s := range structRes {
@@ -292,15 +319,33 @@ func cmdCheck(id, tier string) int {
 		confirmed := false
 		if f.ob != nil {
 			body += fmt.Sprintf("solver: %s result: %s\n", f.ob.Solver, f.ob.Result)
-			if f.ob.Result == "sat" && !f.ob.Cover {
+			if f.ob.Result != "sat" && !f.ob.Cover {
+				// no model from the full query: look for a candidate input with the
+				// quantified assumptions dropped; it counts only if the replay confirms it
+				rf := filepath.Join(dir, "relaxed.smt2")
+				os.WriteFile(rf, []byte(f.ob.relaxedScript()), 0o644)
+				if r := runSolver(solvers[0], rf, 20); r.result == "sat" {
+					saved := f.ob.Model
+					f.ob.Model = r.output
+					rep := e.replay(f.ob, id)
+					if rep.confirmed {
+						body += "\n--- candidate input (model of the query without quantified assumptions), CONFIRMED by replay ---\n" + rep.modelText + "\n--- replay against the real code ---\n" + rep.log + "\n"
+						confirmed = true
+					} else {
+						body += "\n(candidate input from the relaxed query did not reproduce on the real code; discarded)\n"
+						suffix = " no-failing-input-found"
+						f.ob.Model = saved
+					}
+				} else {
+					suffix = " no-failing-input-found"
+				}
+			} else if f.ob.Result == "sat" && !f.ob.Cover {
 				rep := e.replay(f.ob, id)
 				body += "\n--- counterexample (model projected on inputs) ---\n" + rep.modelText + "\n--- replay against the real code ---\n" + rep.log + "\n"
 				confirmed = rep.confirmed
 				if !rep.hasInput {
 					suffix = " no-failing-input-found"
 				}
-			} else {
-				suffix = " no-failing-input-found"
 			}
 			body += "\n--- solver output ---\n" + truncate(f.ob.Model, 6000) + "\n"
 		} else {
